@@ -65,13 +65,25 @@ def lock_audit(repo):
     cl_t = ast.parse(open(os.path.join(repo, 'cassandra/cluster.py')).read())
     audit(find(pool_t, 'HostConnection', '_replace'), 'HostConnection._replace', assigns_attr('_connection'))
     audit(find(cl_t, 'Session', 'add_or_renew_pool', 'run_add_or_renew_pool'), 'Session.add_or_renew_pool', assigns_pools)
+    # the pool being replaced must be read in the locked region that installs the new one
+    f = find(cl_t, 'Session', 'add_or_renew_pool', 'run_add_or_renew_pool')
+    if f is not None:
+        def reads_pools(x):
+            return (isinstance(x, ast.Call) and isinstance(x.func, ast.Attribute) and x.func.attr == 'get' and
+                    isinstance(x.func.value, ast.Attribute) and x.func.value.attr == '_pools')
+        inside = set()
+        for w in ast.walk(f):
+            if isinstance(w, ast.With) and any(isinstance(i.context_expr, ast.Attribute) and i.context_expr.attr == '_lock' for i in w.items):
+                inside |= set(id(x) for x in ast.walk(w))
+        if any(reads_pools(x) and id(x) not in inside for x in ast.walk(f)):
+            probs.append('Session.add_or_renew_pool: self._pools.get(host) is read outside the `with self._lock` region that installs the new pool')
     return probs
 
 
 def run(ctx):
     ok = ctx.prove('Props/C45.v')
     probs = lock_audit(core.REPO)
-    ctx.extra['lock_audit'] = probs or 'ok: shutdown test + install share one `with self._lock` region in HostConnection._replace and Session.add_or_renew_pool'
+    ctx.extra['lock_audit'] = probs or 'ok: shutdown test + install share one `with self._lock` region in HostConnection._replace and Session.add_or_renew_pool; previous pool read under the same lock'
     ctx.trust('lock-region audit (checks/C45.py:lock_audit) + forced interleaving through vf.cstate_harness.HookLock')
     if probs:
         ctx.proof_broken.append(('atomicity-audit', '; '.join(probs)))
